@@ -382,7 +382,12 @@ func GroupByIWithContext[T any, K comparable](iteratee func(ctx context.Context,
 				sub.Unsubscribe()
 				notifyAll(func(o Observer[T]) { o.CompleteWithContext(context.TODO()) })
 
-				groups = sync.Map{}
+				// The teardown may run on another goroutine than the producer: empty the map
+				// in place instead of overwriting the variable the Next callback is reading.
+				groups.Range(func(key, _ any) bool {
+					groups.Delete(key)
+					return true
+				})
 			}
 		})
 	}
